@@ -32,6 +32,7 @@ theorem cov_eq_map (W : Sample) (a b : ℕ) :
       (row.getD a 0 - colMean W a) * (row.getD b 0 - colMean W b))).sum
         / ((W.length : ℚ) - 1) := by
   unfold cov entry
+  simp only []
   rw [map_range_getD W [] (fun row => (row.getD a 0 - colMean W a) * (row.getD b 0 - colMean W b))]
 
 theorem colMean_row_perm {W' W : Sample} (h : W'.Perm W) (c : ℕ) : colMean W' c = colMean W c := by
@@ -47,7 +48,7 @@ theorem corrDet_row_perm {W' W : Sample} (h : W'.Perm W) (cols : List ℕ) :
   have : cov W' = cov W := by
     funext a b
     exact cov_row_perm h a b
-  unfold corrDet
+  unfold corrDet covTable
   rw [this]
 
 /-- **`row_perm`.** Jointly reordering the rows of `X`, `Y`, `Z` (any permutation of the list of
